@@ -79,6 +79,12 @@ let parse_op toks = match toks with
   | ["fromcstr"; h] -> OFromCStr (hx h)
   | ["fromcstrn"; h; n] -> OFromCStrN (hx h, nat n)
   | ["tobool"; v] -> OToBool (nat v)
+  (* round 5: a pointer into the own text handed to prepend; calls that leave out a defaulted argument *)
+  | ["preo"; v; o; l] -> OPrependOwn (nat v, nat o, nat l)
+  | ["trimd"; v] -> oTrimD (nat v)
+  | ["substrd"; v; s] -> oSubstrD (nat v) (zi s)
+  | ["splitd"; v; h] -> oSplitD (nat v) (hx h)
+  | ["splitsetd"; v; h] -> oSplitSetD (nat v) (hx h)
   | ["char"; q; c] ->
     let qq = (match q with
       | "lower" -> CLower | "upper" -> CUpper | "isspace" -> CIsSpace | "isalnum" -> CIsAlnum | "isalpha" -> CIsAlpha
@@ -89,8 +95,15 @@ let parse_op toks = match toks with
   | _ -> failwith ("bad op: " ^ String.concat " " toks)
 
 (* a byte the model holds as indeterminate / out of range prints as the wildcard pair *)
+let long_val = 1024
 let hex_of_vals (l : z list) : string =
   if l = [] then "-" else
+  if List.compare_length_with l long_val > 0 then begin
+    (* a long value: '#' + 32-bit FNV-1a checksum of its bytes (an indeterminate cell makes it differ from every real text) *)
+    let h = ref 2166136261 in
+    List.iter (fun b -> let i = int_of_z b in h := ((!h lxor (i land 0xfff)) * 16777619) land 0xffffffff) l;
+    Printf.sprintf "#%08x" !h
+  end else
   String.concat "" (List.map (fun b -> let i = int_of_z b in if i < 0 || i > 255 then "??" else Printf.sprintf "%02x" i) l)
 
 let out_str r = match r with
@@ -152,9 +165,12 @@ let () =
     run_cases file (fun _ -> (sinit, true))
       (fun (s, live) _ toks ->
          if not live then (s, false) else
-         match spec_step s (parse_op toks) with
+         let o = parse_op toks in
+         match spec_step s o with
          | Some (s', r) ->
-           emit (Printf.sprintf "%s | %s" (out_str r) (pub_of_vals s'.svals));
+           (* what the property text says about the result: StrSpec.seen (None = the text is silent, printed as the wildcard) *)
+           let rs = (match seen s o r with Some r' -> out_str r' | None -> "?") in
+           emit (Printf.sprintf "%s | %s" rs (pub_of_vals s'.svals));
            (s', true)
          | None -> emit "! not-accepted"; (s, false))
       (fun _ -> emit "end")
